@@ -354,6 +354,32 @@ CollRemove(a, b) ==
           /\ Fail("CollRemove", "A", a, b, 0, "ValueError", {<<"A", a>>, <<"B", b>>})
        \/ TFail("CollRemove", "A", a, b, 0)
 
+(* a.bs = S  (assignment of a whole collection: items that leave it are removed as by remove(), new ones are added;
+   all or nothing). S is passed in the event as a bit mask over BIds. *)
+Mask(S) == (IF 1 \in S THEN 1 ELSE 0) + (IF 2 \in S THEN 2 ELSE 0)
+CollSet(a, S) ==
+    /\ Open /\ Rel # "o2o" /\ cur.A[a].ex /\ S # {} /\ S # Kids(cur, a) /\ \A b \in S : cur.B[b].ex
+    /\ LET kids == Kids(cur, a)
+           out == kids \ S
+           inn == S \ kids
+           learnt == {<<"A", a>>} \cup {<<"B", b>> : b \in kids \cup S}
+       IN \/ /\ Rel = "m2m"
+             /\ cur' = [cur EXCEPT !.L = {l \in @ : l[1] # a} \cup {<<a, b>> : b \in S}]
+             /\ UNCHANGED <<pendNew, pendDel>>
+             /\ known' = known \cup learnt
+             /\ ev' = Ev("CollSet", "A", a, Mask(S), 0, "ok", {})
+             /\ UNCHANGED <<db, tx, sess, loadedB>>
+          \/ /\ IsO2M /\ out # {} /\ ~Casc /\ BReq
+             /\ Fail("CollSet", "A", a, Mask(S), 0, "ValueError", learnt)
+          \/ /\ IsO2M /\ ~(out # {} /\ ~Casc /\ BReq)
+             /\ LET s1 == IF Casc THEN RemoveB(cur, out) ELSE UnlinkB(cur, out)
+                IN cur' = [s1 EXCEPT !.B = [k \in BIds |-> IF k \in inn THEN [s1.B[k] EXCEPT !.a = a] ELSE s1.B[k]]]
+             /\ IF Casc THEN AfterDelete({<<"B", b>> : b \in out}) ELSE UNCHANGED <<pendNew, pendDel>>
+             /\ known' = known \cup learnt
+             /\ ev' = Ev("CollSet", "A", a, Mask(S), 0, "ok", {})
+             /\ UNCHANGED <<db, tx, sess, loadedB>>
+          \/ TFail("CollSet", "A", a, Mask(S), 0)
+
 (* a.bs.clear() *)
 CollClear(a) ==
     /\ Open /\ Rel # "o2o" /\ cur.A[a].ex /\ Kids(cur, a) # {}
@@ -589,6 +615,7 @@ Modify == \/ \E k \in AIds, x \in ValsN : CreateA(k, x) \/ SetV(k, x)
           \/ \E k \in BIds, z \in AIds \cup {0} : SetRef(k, z)
           \/ \E k \in BIds, y \in ValsN, z \in AIds \cup {0} : SetMany(k, y, z)
           \/ \E a \in AIds, b \in BIds : CollAdd(a, b) \/ CollRemove(a, b) \/ LAdd(a, b) \/ LRemove(a, b)
+          \/ \E a \in AIds, S \in SUBSET BIds : CollSet(a, S)
           \/ \E a \in AIds : CollClear(a) \/ DeleteA(a) \/ BulkDeleteA(a)
           \/ \E b \in BIds : DeleteB(b)
 
